@@ -214,6 +214,11 @@ class QDomain(Domain):
                 return LIST(elem(args[0])) if args else LIST(SCALAR)
             if n == 'range':
                 return LIST(SCALAR)
+            if n == 'map' and e.args:
+                fn_ = norm(e.args[0])
+                if fn_.startswith('np.') and fn_.split('.')[-1] in NP_ND:
+                    return LIST(ND)
+                return LIST(UNK(f'element of map({fn_})'))
             if n == 'enumerate':
                 return LIST(TUPLE([SCALAR, elem(args[0])]))
             if n == 'zip':
